@@ -1,5 +1,6 @@
 import Firebolt.Properties.C01
 import Firebolt.Properties.ExecFlow
+import Firebolt.Properties.ExecNet
 /-!
 # C02 — Failed events reach exactly the node's own error handler, once
 Denotational part (every tree, oracle, stream); the operational part (every interleaving) is in `Properties/Exec*.lean`.
@@ -58,5 +59,17 @@ open Firebolt.Exec in
 theorem handler_edge_any_schedule (c : Cfg) (caps : Nat → Nat) (disc : Nat → Bool) (as : List Act) (s : St)
     (hr : run c (init c caps disc) as = some s) (ht : Terminal c s) (hh : c.hasHandler = true) (hd : (s.outs c.nChildren).discard = false) :
     (s.enq c.nChildren).Perm (s.upSent.filter (errorB c)) := terminal_handler c s (reachable_all c caps disc as s hr) ht hh hd
+
+
+open Firebolt.Exec in
+/-- **C02 on the whole tree, every global schedule**: at quiescence of a node and its error handler, the handler's receipts
+plus the counted drops at its full buffer are exactly one report per failed event of that node, carrying that event -/
+theorem tree_handler_any_global_schedule (cfg : Path → Cfg) (caps : Path → Nat) (disc : Path → Bool) (sched : List (Path × Act)) (N : Net)
+    (hr : grun (ginit cfg caps disc) sched = some N) (p : Path) (hh : (cfg p).hasHandler = true)
+    (htp : Terminal (cfg p) (N.st p)) (htk : Terminal (cfg ((cfg p).nChildren :: p)) (N.st ((cfg p).nChildren :: p))) :
+    ((N.st ((cfg p).nChildren :: p)).recvd ++ (N.st p).dropped (cfg p).nChildren).Perm ((N.st p).recvd.filter (errorB (cfg p))) := by
+  obtain ⟨hG, hcfg, _⟩ := reachable_ginv cfg caps disc sched N hr
+  subst hcfg
+  exact (tree_handler_edge N hG p hh htp htk).1
 
 end Firebolt.C02
